@@ -19,7 +19,7 @@ EXTENDS Naturals, Sequences, TLC
 
 CONSTANT LitMax   \* 4096
 
-VARIABLES cfg,      \* [litminus, litplus, rev2, utf8] : BOOLEAN each
+VARIABLES cfg,      \* [litminus, litplus, rev2, utf8adv, utf8] : BOOLEAN each
           phase,    \* "idle" | "announced" | "granted" | "refused" | "sent" | "done"
           wrote,    \* octets of the synchronising literal written so far (0 or n)
           status,   \* completion status of the command: "none" | "OK" | "NO"
@@ -27,8 +27,11 @@ VARIABLES cfg,      \* [litminus, litplus, rev2, utf8] : BOOLEAN each
 
 vars == <<cfg, phase, wrote, status, alive>>
 
-Configs == {c \in [litminus : BOOLEAN, litplus : BOOLEAN, rev2 : BOOLEAN, utf8 : BOOLEAN] :
-              (c.litplus => c.litminus) /\ (c.rev2 => c.litminus)}   \* RFC 7888, RFC 9051
+\* utf8adv: UTF8=ACCEPT is advertised; utf8: the client has also ENABLEd it (RFC 6855: only then may it send
+\* UTF-8 in quoted strings)
+Configs == {c \in [litminus : BOOLEAN, litplus : BOOLEAN, rev2 : BOOLEAN, utf8adv : BOOLEAN, utf8 : BOOLEAN] :
+              (c.litplus => c.litminus) /\ (c.rev2 => c.litminus)   \* RFC 7888, RFC 9051
+              /\ (c.utf8 => c.utf8adv)}
 
 \* ---- legality of one token the client wrote --------------------------------
 \* t = [rep, n, bit8, ctl]: representation, octet count of the content, content has bytes >= 0x80,
